@@ -305,7 +305,8 @@ impl KVVStore for RedbKVVStore {
         for kvv in kvvs.into_iter() {
             let (key, (version, value)) = (kvv.0.as_str(), (kvv.1 .0, kvv.1 .1));
             let vv = Self::encode_vv(version, value);
-            if let Some(v) = versions.get(key) {
+            // an earlier entry of this batch for the same key counts as the current version
+            if let Some(v) = staged_versions.get(key).or(versions.get(key)) {
                 if version < *v {
                     // version cannot go backwards
                     error!("version mismatch for {}: {} < {}", key, version, v);
